@@ -4189,6 +4189,12 @@ BuildNode* BuildSystem::lookupNode(StringRef name) {
 bool llbuild::buildsystem::pathIsPrefixedByPath(std::string path,
                                                 std::string prefixPath) {
   std::string pathSeparators = llbuild::basic::sys::getPathSeparators();
+  // A prefix spelled with a trailing separator ("/foo/") names the same
+  // directory as the spelling without it, and must cover the same paths.
+  while (prefixPath.length() > 1 &&
+         pathSeparators.find(prefixPath.back()) != std::string::npos) {
+    prefixPath.pop_back();
+  }
   // Note: GCC 4.8 doesn't support the mismatch(first1, last1, first2, last2)
   // overload, just mismatch(first1, last1, first2), so we have to handle the
   // case where prefixPath is longer than path.
